@@ -67,6 +67,49 @@ def pairing(chk, prog):
     chk.inst("handle-construction-sites", DR, sites == allowed,
              detail="DynamicRoot values are built in %s; reviewed sites are %s (each pairs the handle with exactly one "
                     "add/inc)" % (sorted(sites), sorted(allowed)))
+    # who may move a slot's handle count: add only from stash, inc only from Clone::clone, dec only from Drop::drop (or
+    # private helpers reachable only through them). Any other caller - a clone_from override re-pointing a handle in
+    # place, say - moves counts without the construction / destruction of a handle that the pairing rows decide,
+    # and can do so on a table other than the handle's own.
+    from gcv.props import common
+    for target, allowed in (("dynamic_roots::Slots::add", {"dynamic_roots::DynamicRootSet::stash"}),
+                            ("dynamic_roots::Slots::inc", {"<dynamic_roots::DynamicRoot as core::clone::Clone>::clone"}),
+                            ("dynamic_roots::Slots::dec", {"<dynamic_roots::DynamicRoot as core::ops::drop::Drop>::drop"})):
+        if chk.anchor(target, target in prog.seed_n):
+            common.confined(chk, prog, "slot-count-callers", target, allowed,
+                            "the handle count of a slot moves outside the reviewed handle events")
+    # a handle is immutable after construction: no function assigns to a field of an existing DynamicRoot (which would
+    # re-point it without the paired count moves the construction sites are checked for)
+    writers = set()
+    for d_raw, key in prog.seed.items():
+        body = prog.bodies[key]
+        for bb in body["blocks"]:
+            for st_ in bb["s"]:
+                if st_["k"] != "assign" or not st_["p"]["p"]:
+                    continue
+                tid = body["locals"][st_["p"]["l"]]
+                for pr in st_["p"]["p"]:
+                    t = prog.ty(tid) if tid is not None else {}
+                    if pr[0] == "f" and t.get("k") == "adt" and t.get("def") == DR:
+                        writers.add(norm(d_raw))
+                        break
+                    if pr[0] == "d":
+                        tid = t.get("ty") if t.get("k") in ("ref", "ptr") else None
+                    elif pr[0] == "f" and t.get("k") == "adt":
+                        a_ = prog.all_adts.get(t["def"])
+                        try:
+                            tid = a_["variants"][0]["fields"][pr[1]].get("ty") if a_ and a_["kind"] == "struct" else None
+                        except (IndexError, KeyError):
+                            tid = None
+                    elif pr[0] == "f" and t.get("k") == "tuple":
+                        tid = t["elems"][pr[1]]
+                    else:
+                        tid = None
+                    if tid is None:
+                        break
+    chk.inst("handle-immutable-after-construction", DR, not writers,
+             detail="%s assign(s) to a field of an existing DynamicRoot: the handle is re-pointed in place, outside the "
+                    "reviewed construction sites that pair it with its slot count" % sorted(writers))
     a = prog.adts.get(DR)
     if chk.anchor(DR, a is not None):
         chk.inst("handle-fields-private", DR, not any(f["pub"] for f in a["variants"][0]["fields"]),
